@@ -449,6 +449,43 @@ pub fn stored_edges(zlib: Option<(u8, u8)>) -> Vec<GenStream> {
     out
 }
 
+/// A Huffman block coded with 1- and 2-bit codes (so many whole bytes of the following block are
+/// already in the decoder's bit buffer) directly followed by tiny stored blocks; final or not.
+pub fn short_code_then_stored(zlib: Option<(u8, u8)>) -> Vec<GenStream> {
+    let mut out = vec![];
+    for codes in 0..2 {
+        // codes 0: 'a' and EOB with 1-bit codes; codes 1: 'a' 1 bit, 'b' and EOB 2 bits
+        let mut ll = vec![0u8; 257];
+        if codes == 0 {
+            ll[b'a' as usize] = 1;
+            ll[256] = 1;
+        } else {
+            ll[b'a' as usize] = 1;
+            ll[b'b' as usize] = 2;
+            ll[256] = 2;
+        }
+        let spec = DynSpec::new(ll, vec![0]);
+        for nlit in 0..=17usize {
+            for slen in 0..=5usize {
+                for tail in 0..2 {
+                    let toks: Vec<Token> = (0..nlit).map(|i| if codes == 1 && i % 3 == 2 { lit(b'b') } else { lit(b'a') }).collect();
+                    let data: Vec<u8> = (0..slen).map(|i| 0x30 + i as u8).collect();
+                    let mut b = StreamBuilder::new(zlib);
+                    b.dynamic(&spec, &toks, false);
+                    if tail == 0 {
+                        b.stored(&data, true);
+                    } else {
+                        b.stored(&data, false);
+                        b.dynamic(&spec, &toks[..nlit.min(2)], true);
+                    }
+                    out.push(b.finish());
+                }
+            }
+        }
+    }
+    out
+}
+
 /// All valid zlib wrappers around one body.
 pub fn zlib_wrappers() -> Vec<GenStream> {
     let mut out = vec![];
@@ -499,5 +536,6 @@ pub fn grammar(zlib: Option<(u8, u8)>, thorough: bool) -> Vec<GenStream> {
     v.extend(token_sequences(zlib, if thorough { 4 } else { 3 }));
     v.extend(stored_edges(zlib));
     v.extend(final_block_variants(zlib));
+    v.extend(short_code_then_stored(zlib));
     v
 }
